@@ -23,24 +23,36 @@ from .core import Collector, pmap
 _MACHINE = None  # set before forking so workers inherit it
 
 
-def replay(machine, hist):
+def replay(machine, hist, light_prefix: bool = False):
+    """Re-executes a history from scratch.  With light_prefix the oracle comparison is skipped on
+    all but the last event (the prefix was fully checked when it was first explored); an
+    exception or a failed step inside the prefix is still a hard divergence error."""
     s = machine.initial()
     fails = []
-    for ev in hist:
-        fails = machine.step(s, ev)
+    for i, ev in enumerate(hist):
+        if light_prefix and i < len(hist) - 1:
+            fails = machine.step(s, ev, light=True)
+        else:
+            fails = machine.step(s, ev)
         if fails:
             break
     return s, fails
 
 
+def _prefix(m, hist):
+    s = m.initial()
+    for ev in hist:
+        fails = m.step(s, ev, light=True)
+        assert not fails, f"prefix replay diverged: {hist} at {ev} -> {fails}"
+    return s
+
+
 def _expand(hist):
     m = _MACHINE
-    s, fails = replay(m, hist)
-    assert not fails, f"prefix replay diverged: {hist} -> {fails}"
+    s = _prefix(m, hist)
     out = []
     for ev in m.enabled(s):
-        s2, pre = replay(m, hist)
-        assert not pre, "prefix replay diverged"
+        s2 = _prefix(m, hist)
         fails = m.step(s2, ev)
         oc = m.outcome(s2, ev) if hasattr(m, "outcome") else None
         if fails:
@@ -70,6 +82,9 @@ def explore(machine, max_depth: int, col: Collector, procs: int | None = None, s
     frontier: list[list] = [[]]
     st.states = 1
     depth = 0
+    import sys, time
+
+    t0 = time.time()
     while frontier and depth < max_depth:
         results = pmap(_expand, frontier, chunksize=max(1, len(frontier) // 64), procs=procs)
         nxt = []
@@ -87,6 +102,8 @@ def explore(machine, max_depth: int, col: Collector, procs: int | None = None, s
                     nxt.append(hist + [ev])
                     col.sample(hist + [ev]) if len(hist) >= 2 else None
         depth += 1
+        print(f"  [e1] depth {depth}: +{len(nxt)} states, total {len(seen)}, transitions {st.transitions}, "
+              f"{time.time() - t0:.1f}s", file=sys.stderr, flush=True)
         st.per_depth.append(len(nxt))
         frontier = nxt
         st.states = len(seen)
